@@ -21,7 +21,10 @@
   Loop-private: the subscriber set of the topic, every connection's pending event (the
   `_event_queue` entry of the characteristic) and the events written to its transport.
 
-  The model mirrors the code WITH the repair design/fixes/C20.patch (`fix = true`: after storing the
+  The code variant is a parameter (`Variant`): `repaired` = the code with both C20 repairs
+  (design/fixes/C20.patch: re-check after the store; design/fixes/C20-toHAP-double-read.patch: the
+  cache slot is read once into a local), `head` = re-check present but the early return still reads
+  the slot a second time, `shipped` = neither.  Historic wording below: `fix = true`: after storing the
   cache `to_HAP` re-reads `_value` and drops the cache if it is no longer the rendered object);
   `fix = false` is the code as shipped (store, return).
 -/
@@ -36,6 +39,22 @@ deriving DecidableEq, Repr
 
 abbrev Conn := Nat
 
+/-- Which `to_HAP` is modelled.  `recheck`: after storing the with-value cache the value is read
+    again and the cache dropped if it moved.  `single`: the early return uses the object it tested
+    (`cached = self._to_hap_cache…; if cached is not None: return cached`) instead of loading the
+    slot a second time. -/
+structure Variant where
+  recheck : Bool
+  single : Bool
+deriving DecidableEq, Repr
+
+/-- both repairs -/
+def repaired : Variant := ⟨true, true⟩
+/-- re-check present, early return still loads the slot twice -/
+def head : Variant := ⟨true, false⟩
+/-- the code as originally shipped -/
+def shipped : Variant := ⟨false, false⟩
+
 /-- Operations the event-loop thread performs. -/
 inductive LoopOp
   | toHAP              -- Characteristic.to_HAP(include_value=True)   (GET /accessories)
@@ -44,6 +63,8 @@ inductive LoopOp
   | sub (c : Conn)     -- PUT ev=true  → _notify → async_subscribe_client_topic(c, topic, True)
   | unsub (c : Conn)   -- PUT ev=false → _notify → async_subscribe_client_topic(c, topic, False)
                        --                 + http_server.discard_event (c's queued entry is dropped)
+  | lost (c : Conn)    -- HAPServerProtocol.connection_lost of connection c: the driver unsubscribes it
+                       -- from every topic, close() cancels its timer and clears its queue
   | drain              -- run the callbacks handed over by call_soon_threadsafe (async_send_event)
   | flush (c : Conn)   -- HAPServerProtocol._send_events of connection c, called directly
   | fire (c : Conn)    -- the 0.5 s coalescing timer of connection c expires (if it is armed)
@@ -174,7 +195,7 @@ def ctrlWrite (s : Cfg) (w : Conn) (v : Obj) : Cfg :=
            knows := fun x => if x = w then v else s.knows x }
 
 /-- One step of the event-loop thread.  `fix`: the repaired `to_HAP`. -/
-def stepLoop (fix : Bool) (s : Cfg) : Cfg × Label :=
+def stepLoop (fix : Variant) (s : Cfg) : Cfg × Label :=
   match s.lpc with
   | .idle =>
     match s.lops with
@@ -196,25 +217,36 @@ def stepLoop (fix : Bool) (s : Cfg) : Cfg × Label :=
           let l := s.subs.erase c
           if l.isEmpty then ({ s with subs := l, lpc := .uKey }, .tau) else ({ s with subs := l }, .tau)
         else (s, .tau)
+      | .lost c =>
+        let s := { s with pending := fun x => if x = c then none else s.pending x,
+                          timer := fun x => if x = c then false else s.timer x }
+        if s.topicKey then
+          let l := s.subs.erase c
+          if l.isEmpty then ({ s with subs := l, lpc := .uKey }, .tau) else ({ s with subs := l }, .tau)
+        else (s, .tau)
       | .drain => ({ s with lpc := .dLoop }, .tau)
       | .flush c => (sendEvents s c, .tau)
       | .fire c => if s.timer c then (sendEvents s c, .tau) else (s, .tau)
       | .write w v => (ctrlWrite s w v, .wr .value)
   | .hCheck =>
     match s.cacheV with
-    | some _ => ({ s with lpc := .hRet }, .rd .cacheV)
+    | some r =>
+      if fix.single then (ret s (.rep r), .rd .cacheV)     -- `return cached` (the object tested)
+      else ({ s with lpc := .hRet }, .rd .cacheV)          -- l.413 loads the slot again
     | none => ({ s with lpc := .hRead }, .rd .cacheV)
   | .hRet =>
     (ret s (match s.cacheV with | some r => .rep r | none => .nothing), .rd .cacheV)
   | .hRead => ({ s with lpc := .hStore s.value }, .rd .value)
   | .hStore r =>
-    if fix then ({ s with cacheV := some r, lpc := .hRecheck r }, .wr .cacheV)
+    if fix.recheck then ({ s with cacheV := some r, lpc := .hRecheck r }, .wr .cacheV)
     else (ret { s with cacheV := some r } (.rep r), .wr .cacheV)
   | .hRecheck r =>
     if r = s.value then (ret s (.rep r), .rd .value) else ({ s with lpc := .hDrop r }, .rd .value)
   | .hDrop r => (ret { s with cacheV := none } (.rep r), .wr .cacheV)
   | .nCheck =>
-    if s.cache then ({ s with lpc := .nRet }, .rd .cache) else ({ s with lpc := .nStore }, .rd .cache)
+    if s.cache then
+      (if fix.single then (ret s .repNV, .rd .cache) else ({ s with lpc := .nRet }, .rd .cache))
+    else ({ s with lpc := .nStore }, .rd .cache)
   | .nRet => (ret s (if s.cache then .repNV else .nothing), .rd .cache)
   | .nStore => (ret { s with cache := true } .repNV, .wr .cache)
   | .gRead => (ret s (.value s.value), .rd .value)
@@ -248,12 +280,12 @@ def stepWorker (s : Cfg) : Cfg × Label :=
   | .wEnq d => ({ s with queue := s.queue ++ [d], enq := s.enq ++ [d], wpc := .idle }, .wr .queue)
 
 /-- The scheduler picks the loop thread (`true`) or the worker (`false`). -/
-def step (fix : Bool) (b : Bool) (s : Cfg) : Cfg :=
+def step (fix : Variant) (b : Bool) (s : Cfg) : Cfg :=
   if b then (stepLoop fix s).1 else (stepWorker s).1
 
 /-- A schedule is a list of scheduler choices: every merge of the two threads' step sequences is
     `run` of some bit list (a choice of a finished thread is a stutter). -/
-def run (fix : Bool) : List Bool → Cfg → Cfg
+def run (fix : Variant) : List Bool → Cfg → Cfg
   | [], s => s
   | b :: bs, s => run fix bs (step fix b s)
 
@@ -292,13 +324,13 @@ instance (s : Cfg) : Decidable (AtWrite s) := by unfold AtWrite; infer_instance
     drained — i.e. a controller write of this characteristic never overlaps a worker update or its
     undrained hand-off.  (The overlapping shapes are the known finding of C12: the older worker
     value can be delivered after the newer controller write.) -/
-def Serial (fix : Bool) : List Bool → Cfg → Prop
+def Serial (fix : Variant) : List Bool → Cfg → Prop
   | [], _ => True
   | b :: bs, s =>
     (b = true → AtWrite s → s.wpc = .idle ∧ s.queue = []) ∧
     Serial fix bs (step fix b s)
 
-instance decSerial (fix : Bool) : (bits : List Bool) → (s : Cfg) → Decidable (Serial fix bits s)
+instance decSerial (fix : Variant) : (bits : List Bool) → (s : Cfg) → Decidable (Serial fix bits s)
   | [], _ => isTrue trivial
   | b :: bs, s => by
     unfold Serial
